@@ -88,13 +88,13 @@ def _install():
     sys.addaudithook(hook)
 
 
-def record(base, fn):
-    """run fn() with the recorder on for paths below base -> (result or raised OSError, events).
+def record(base, fn, extra=()):
+    """run fn() with the recorder on for paths below base (and the extra directories) -> (result, raised OSError, events).
     Every event carries the contents, just before it, of the files opened for writing so far; a final
     pseudo-event ("end") carries them after fn returned."""
     _install()
     log, opened = [], []
-    _HOOK.update(on=True, dir=base + os.sep, log=log, opened=opened, busy=False)
+    _HOOK.update(on=True, dir=tuple(d + os.sep for d in (base,) + tuple(extra)), log=log, opened=opened, busy=False)
     err = None
     out = None
     try:
@@ -209,7 +209,8 @@ def _run_real(d, case, i):
     target = os.path.join(d, case["target"])
     if op["api"] == "setContent":
         from twisted.python.filepath import FilePath
-        FilePath(target).setContent(B(op["data"]), op.get("ext", ".new"))
+        ext = op.get("ext", ".new")
+        FilePath(target).setContent(B(op["data"]), ext.encode() if op.get("bytes_ext") else ext)
     else:
         from twisted.persisted import sob
         p = sob.Persistent(op["obj"], "app")
@@ -229,24 +230,31 @@ def _read_real(d, case, api, style=None):
     return ("content", fp.getContent())
 
 
+def _pj(d, name):
+    """d is a directory, or a pair (A, B) of directories on different file systems: names starting with '@' live in B"""
+    if isinstance(d, tuple):
+        return os.path.join(d[1], name[1:]) if name.startswith("@") else os.path.join(d[0], name)
+    return os.path.join(d, name)
+
+
 def _apply_real(d, step):
     """one atomic model step with real system calls; False if the kernel refuses it"""
     try:
         k = step[0]
         if k == "x":
-            os.close(os.open(os.path.join(d, step[1]), os.O_CREAT | os.O_EXCL | os.O_WRONLY))
+            os.close(os.open(_pj(d, step[1]), os.O_CREAT | os.O_EXCL | os.O_WRONLY))
         elif k == "c":
-            os.close(os.open(os.path.join(d, step[1]), os.O_CREAT | os.O_TRUNC | os.O_WRONLY))
+            os.close(os.open(_pj(d, step[1]), os.O_CREAT | os.O_TRUNC | os.O_WRONLY))
         elif k == "a":
-            fd = os.open(os.path.join(d, step[1]), os.O_WRONLY | os.O_APPEND)
+            fd = os.open(_pj(d, step[1]), os.O_WRONLY | os.O_APPEND)
             try:
                 os.write(fd, bytes([step[2]]))
             finally:
                 os.close(fd)
         elif k == "r":
-            os.rename(os.path.join(d, step[1]), os.path.join(d, step[2]))
+            os.rename(_pj(d, step[1]), _pj(d, step[2]))
         elif k == "u":
-            os.remove(os.path.join(d, step[1]))
+            os.remove(_pj(d, step[1]))
         else:
             raise AssertionError(step)
         return True
@@ -266,11 +274,149 @@ def _show_step(st):
 def impl(case) -> str:
     _install()
     base = tempfile.mkdtemp(prefix="verif_c52_", dir=SCRATCH)
+    other = None
     try:
+        if case.get("kind") == "move":
+            other = tempfile.mkdtemp(prefix="verif_c52b_")      # the default temp directory: another file system
+            return _impl_move(case, base, other)
         return _impl(case, base)
     finally:
         _HOOK["on"] = False
         shutil.rmtree(base, ignore_errors=True)
+        if other:
+            shutil.rmtree(other, ignore_errors=True)
+
+
+# ---- FilePath.moveTo between file systems ------------------------------------------------------------
+
+def move_names(case):
+    out = []
+    for n in [e[0] for e in case["init"]] + [case["src"], case["dst"], "TD", "@TS"]:
+        if n not in out:
+            out.append(n)
+    return out
+
+
+def _mpopulate(d, case):
+    for e in case["init"]:
+        p = _pj(d, e[0])
+        if e[1] == "d":
+            os.mkdir(p)
+        else:
+            with open(p, "wb") as f:
+                f.write(B(e[2]))
+
+
+def _msnapshot(d, case, rename=None):
+    rename = rename or {}
+    st = {}
+    for side, prefix in ((d[0], ""), (d[1], "@")):
+        for n in os.listdir(side):
+            p = os.path.join(side, n)
+            cn = rename.get(prefix + n, prefix + n)
+            if os.path.isdir(p):
+                st[cn] = "d"
+            else:
+                with open(p, "rb") as f:
+                    st[cn] = "f" + H(f.read())
+    known = move_names(case)
+    s = ",".join(st.get(n, "-") for n in known)
+    extra = sorted(set(st) - set(known))
+    if extra:
+        s += ",EXTRA:" + "+".join(extra)
+    return s
+
+
+def _mread(d, name):
+    from twisted.python.filepath import FilePath
+    fp = FilePath(_pj(d, name))
+    if not fp.exists():
+        return ("absent",)
+    if not fp.isfile():
+        return ("other",)
+    return ("content", fp.getContent())
+
+
+def _impl_move(case, base, other) -> str:
+    from twisted.python.filepath import FilePath
+    mk = lambda tag: (os.path.join(base, tag), os.path.join(other, tag))
+    live = mk("live")
+    for x in live:
+        os.mkdir(x)
+    if os.stat(live[0]).st_dev == os.stat(live[1]).st_dev:
+        return "SKIP #ok"                  # no second file system in this sandbox: nothing to observe
+    _mpopulate(live, case)
+    notes, verdicts = [], []
+    init = {e[0]: e for e in case["init"]}
+    src, dst = case["src"], case["dst"]
+    content = B(init[src][2]) if src in init and init[src][1] == "f" else None
+    old_dst = ("absent",) if dst not in init else (("content", B(init[dst][2])) if init[dst][1] == "f" else ("other",))
+    _, err, log = record(base, lambda: FilePath(_pj(live, src)).moveTo(FilePath(_pj(live, dst))), extra=(other,))
+    rename = {}
+    pat_d = re.compile(r"^.{16}" + re.escape(dst) + r"$", re.S)
+    pat_s = re.compile(r"^.{16}" + re.escape(src[1:]) + r"$", re.S)
+
+    def rel(p):
+        n = os.path.basename(p)
+        if p.startswith(live[1] + os.sep):
+            if pat_s.match(n) and "@" + n not in init:
+                rename["@" + n] = "@TS"
+            return rename.get("@" + n, "@" + n)
+        if pat_d.match(n) and n not in init:
+            rename[n] = "TD"
+        return rename.get(n, n)
+
+    steps = translate(log, rel, notes)
+    probes = [s_ for s_ in steps if s_[0] == "r" and s_[1].startswith("@") != s_[2].startswith("@")]
+    steps = [s_ for s_ in steps if s_ not in probes]
+    if content is not None and len(probes) != 1:
+        notes.append(f"cross-device-renames:{len(probes)}")
+
+    replay = mk("replay")
+    for x in replay:
+        os.mkdir(x)
+    _mpopulate(replay, case)
+    states = []
+    alive = True
+    for j in range(len(steps) + 1):
+        if j and alive:
+            alive = _apply_real(replay, steps[j - 1])
+        snap = _msnapshot(replay, case)
+        states.append(snap)
+        if content is None:
+            continue
+        # ---- the property at this crash point, through the real readers
+        d_now, s_now = _mread(replay, dst), _mread(replay, src)
+        if d_now not in (old_dst, ("content", content)):
+            verdicts.append(f"move-target:{j}:{d_now[0]}")
+        if s_now != ("content", content) and d_now != ("content", content):
+            verdicts.append(f"move-content-lost:{j}")
+        if "EXTRA" in snap:
+            verdicts.append(f"stray:{j}")
+        now = dict(zip(move_names(case), snap.split(",")))
+        for n in move_names(case):
+            if n in (src, dst, "TD", "@TS"):
+                continue
+            e = init.get(n)
+            if now[n] != ("-" if e is None else ("d" if e[1] == "d" else "f" + e[2])):
+                verdicts.append(f"collateral:{j}:{n}")
+        # the move, run again on a copy of the crash state, completes
+        if alive and s_now == ("content", content) and old_dst != ("other",) and not any(e[1] == "d" for e in case["init"]):
+            rec_d = mk(f"rec{j}")
+            for a, b in zip(replay, rec_d):
+                shutil.copytree(a, b)
+            try:
+                FilePath(_pj(rec_d, src)).moveTo(FilePath(_pj(rec_d, dst)))
+                if _mread(rec_d, dst) != ("content", content) or _mread(rec_d, src) != ("absent",):
+                    verdicts.append(f"recover-content:{j}")
+            except OSError as e:
+                verdicts.append(f"recover-raises:{j}:{type(e).__name__}")
+    if _msnapshot(live, case, rename) != states[-1]:
+        notes.append("live-differs-from-replay:" + _msnapshot(live, case, rename))
+    obs = "S:" + ";".join(_show_step(s_) for s_ in steps) + "|C:" + ";".join(states)
+    if err is not None:
+        obs += "|refused"
+    return obs + " #" + ("ok" if not verdicts and not notes else "bad " + " ".join(verdicts[:3] + notes[:3]))
 
 
 def _impl(case, base) -> str:
@@ -387,6 +533,8 @@ def _impl(case, base) -> str:
 
 def model_equal(case, a, b):
     head = a.split(" #")[0]
+    if head == "SKIP":
+        return True
     if not head.endswith("|refused"):
         return head == b
     try:
@@ -408,7 +556,7 @@ def oracle(case, obs):
     what = tail[4:]
     first = what.split(" ")[0]
     kind = first.split(":")[0]
-    api = "+".join(sorted({o["api"] for o in case["ops"]}))
+    api = "moveTo" if case.get("kind") == "move" else "+".join(sorted({o["api"] for o in case["ops"]}))
     return Failure(case, f"atomic replacement violated ({api}): {what}", f"{kind}-{api}")
 
 
@@ -423,7 +571,8 @@ def _rand_bytes(rng, maxlen):
 def _rand_op(rng):
     r = rng.random()
     if r < 0.6:
-        return {"api": "setContent", "data": H(_rand_bytes(rng, 6)), "ext": rng.choice([".new", ".new", "", ".tmp"])}
+        return {"api": "setContent", "data": H(_rand_bytes(rng, 6)), "bytes_ext": rng.random() < 0.25,
+                "ext": rng.choice([".new", ".new", "", ".tmp", ".a.b", "~", "-2", " x"])}
     style = rng.choice(["pickle", "pickle", "source"])
     obj = rng.choice([0, 7, "", "a", "ab", [1], None, True])
     return {"api": "sob", "style": style, "obj": obj}
@@ -467,11 +616,33 @@ def gen(rng, tier):
                 init = [] if old is None else [["t", "f", H(old)]]
                 cases.append({"init": init, "target": "t",
                               "ops": [{"api": "setContent", "data": H(bytes(w)), "ext": ".new"}]})
+    # FilePath.moveTo between two real file systems (EXDEV fall-back): source present / absent, destination
+    # absent / a file / a directory, stale temporaries, unrelated files on both sides
+    for _ in range(90 if quick else 1500):
+        src, dst = "@" + rng.choice(["s", "data.bin"]), rng.choice(["t", "data.bin", "s"])
+        init = []
+        if rng.random() < 0.92:
+            init.append([src, "f", H(_rand_bytes(rng, 6))])
+        r = rng.random()
+        if r < 0.5:
+            init.append([dst, "f", H(_rand_bytes(rng, 4))])
+        elif r < 0.58:
+            init.append([dst, "d"])
+        if rng.random() < 0.3:
+            init.append(["keep", "f", H(b"k")])
+        if rng.random() < 0.3:
+            init.append(["@keep", "f", H(b"K")])
+        cases.append({"kind": "move", "init": init, "src": src, "dst": dst})
     return cases
 
 
 def corpus():
     return [
+        {"kind": "move", "init": [["@s", "f", H(b"payload")], ["t", "f", H(b"old")], ["@keep", "f", H(b"K")]], "src": "@s", "dst": "t"},
+        {"kind": "move", "init": [["@s", "f", H(b"")]], "src": "@s", "dst": "t"},
+        {"kind": "move", "init": [["@s", "f", H(b"xy")], ["t", "d"]], "src": "@s", "dst": "t"},
+        {"kind": "move", "init": [["t", "f", H(b"old")]], "src": "@s", "dst": "t"},
+        {"init": [["t", "f", H(b"old")]], "target": "t", "ops": [{"api": "setContent", "data": H(b"n"), "ext": ".a.b", "bytes_ext": True}]},
         {"init": [["t", "f", H(b"old")]], "target": "t", "ops": [{"api": "setContent", "data": H(b"new!"), "ext": ".new"}]},
         {"init": [], "target": "t", "ops": [{"api": "setContent", "data": H(b""), "ext": ".new"}]},
         {"init": [["app.tap", "f", H(pickle.dumps(1, 2))], ["app.tap-2", "f", H(b"junk")]], "target": "app.tap",
@@ -486,6 +657,12 @@ def corpus():
 
 def to_coq(case):
     cb = lambda s: coq_bytes(s.encode())
+    if case.get("kind") == "move":
+        init = []
+        for e in reversed(case["init"]):
+            init.append(f"({cb(e[0])}, {'Dir' if e[1] == 'd' else 'File ' + coq_bytes(B(e[2]))})")
+        return (f"CMove {coq_list([cb(n) for n in move_names(case)], 'path')} {coq_list(init, '(path * node)%type')} "
+                f"{cb(case['src'])} {cb(case['dst'])} {cb('TD')} {cb('@TS')}")
     init = []
     for e in reversed(case["init"]):            # association list: later entries would shadow; names are unique
         node = "Dir" if e[1] == "d" else f"File {coq_bytes(B(e[2]))}"
@@ -494,11 +671,15 @@ def to_coq(case):
     for i, o in enumerate(case["ops"]):
         kind = "Exclusive" if o["api"] == "setContent" else "Truncating"
         ops.append(f"mkop {kind} {cb(op_tmp(case, i))} {coq_bytes(op_data(o))}")
-    return (f"({coq_list([cb(n) for n in names(case)], 'path')}, {coq_list(init, '(path * node)%type')}, "
-            f"{cb(case['target'])}, {coq_list(ops, 'op')})")
+    return (f"CRepl {coq_list([cb(n) for n in names(case)], 'path')} {coq_list(init, '(path * node)%type')} "
+            f"{cb(case['target'])} {coq_list(ops, 'op')}")
 
 
 def shrink(case):
+    if case.get("kind") == "move":
+        for i in range(len(case["init"])):
+            yield {**case, "init": case["init"][:i] + case["init"][i + 1:]}
+        return
     ops = case["ops"]
     for i in range(len(ops)):
         if len(ops) > 1:
@@ -518,7 +699,7 @@ SPEC = Spec(
     to_coq=to_coq,
     model_equal=model_equal,
     nontrivial=lambda c, o: o.count(";") > 4,
-    histogram=lambda c, o: "+".join(x["api"] for x in c["ops"]) + (":target-exists" if any(e[0] == c["target"] for e in c["init"]) else ":target-absent"),
+    histogram=lambda c, o: "moveTo" if c.get("kind") == "move" else "+".join(x["api"] for x in c["ops"]) + (":target-exists" if any(e[0] == c["target"] for e in c["init"]) else ":target-absent"),
     rule="histories of 1-3 replacements (FilePath.setContent with several extensions, sob.Persistent.save in pickle "
          "and source style) over targets that are absent / an existing file / a directory, with and without a stale "
          "temporary (file or directory) and an unrelated file; contents of length 0-6 incl. NUL, LF, 0xff; plus every "
